@@ -296,10 +296,13 @@ def static_family():
             if not (close(back.get_score(), tr.get_score()) and close(w2, -w)):
                 fail("static.update: backward request does not restore", w=w, w2=w2)
     for sel in (S.at["x"], S.at["sub", "y"], ~S.at["x"], S.none(), S.all()):
-        new, w, rd, bwd = model.edit(KEY, tr, Regenerate(sel), Diff.no_change((0.2,)))
+      for rad in (Diff.no_change((0.2,)), Diff.unknown_change((0.6,))):
+        new, w, rd, bwd = model.edit(KEY, tr, Regenerate(sel), rad)
         wf(new, "static.regenerate")
         if not close(w, new.get_score() - tr.get_score()):
-            fail("static.regenerate: weight != score change", sel=sel)
+            fail("static.regenerate: weight != score change", sel=sel, w=w, delta=new.get_score() - tr.get_score())
+        if not close(new.get_args()[0], Diff.tree_primal(rad)[0]):
+            fail("static.regenerate: new trace does not carry the new arguments", sel=sel)
         for addr in ("x", ("sub", "y")):
             if not sel[addr] and not close(new.get_choices()[addr], tr.get_choices()[addr]):
                 fail("static.regenerate: unselected choice changed", addr=addr, sel=sel)
